@@ -102,6 +102,13 @@ def native_check(cfg, env=None, seed=0):
         fails.append(("samples not 0/1 of the requested shape", None))
     if not torch.equal(rbm.gibbs_steps(0, V), V):
         fails.append(("k=0 does not return the start state", None))
+    # chains continued across calls: an earlier result is never modified by a later non-overwriting call
+    s1 = rbm.gibbs_steps(1, V)
+    snap = s1.clone()
+    s2 = rbm.gibbs_steps(2, s1)
+    s3 = rbm.gibbs_steps(1, V)
+    if not torch.equal(s1, snap) or s2.data_ptr() == s1.data_ptr() or s3.data_ptr() in (s1.data_ptr(), s2.data_ptr()):
+        fails.append(("a later call modified / reused the tensor returned by an earlier call", None))
     return fails[:6], (vs, K, pi)
 
 
